@@ -17,6 +17,7 @@
      cT cF               IsConnected() observed
      M<id> E<text> B<x>  peer sent event line / ERROR line / unparsable line
      X                   peer closed
+     F                   the sending direction of the client's socket breaks (writes fail)
      r<text> Q<text>     peer received line / QUIT line
      Z                   peer saw EOF
      T<k>                ping ticker (k = 0,1,2) *)
@@ -50,6 +51,7 @@ Definition parse_label (t : str) : option label :=
   | 69%N :: tx => Some (LPeerSend (LnEv (EvError tx)))
   | 66%N :: x => Some (LPeerSend (LnBad x))
   | [88%N] => Some LPeerClose
+  | [70%N] => Some LWFault
   | 114%N :: tx => Some (LPeerRecv (mkOut false tx))
   | 81%N :: tx => Some (LPeerRecv (mkOut true tx))
   | [90%N] => Some LPeerEOF
@@ -115,17 +117,28 @@ Definition k_erroreof := Eval vm_compute in bs "erroreof".
 Definition k_werr := Eval vm_compute in bs "werr".
 Definition k_bad := Eval vm_compute in bs "badline".
 Definition k_resp := Eval vm_compute in bs "resp".
+Definition k_qwf := Eval vm_compute in bs "qwf".
+Definition k_wfault := Eval vm_compute in bs "wfault".
+Definition p_reg := Eval vm_compute in bs "reg".
+Definition p_txq := Eval vm_compute in bs "txq".
 
 (* the features of the history a scenario kind produces *)
-Definition kind_features (kind errtext : str) (resp : bool) : option features :=
-  if streqb kind k_close || streqb kind k_closereg then Some (mkFeat true false [] false false false)
+Definition kind_features (kind place errtext : str) (resp : bool) : option features :=
+  if streqb kind k_close || streqb kind k_closereg then Some (mkFeat true false [] false false false false)
   else if streqb kind k_quit then
     (* resp: the peer answers the QUIT like a server: ERROR, then it closes *)
-    Some (if resp then mkFeat true false [errtext] true false false else mkFeat true false [] false false false)
-  else if streqb kind k_error then Some (mkFeat false false [errtext] false false false)
-  else if streqb kind k_eof || streqb kind k_werr then Some (mkFeat false false [] true false false)
-  else if streqb kind k_erroreof then Some (mkFeat false false [errtext] true false false)
-  else if streqb kind k_bad then Some (mkFeat false false [] false true false)
+    Some (if resp then mkFeat true false [errtext] true false false false else mkFeat true false [] false false false false)
+  else if streqb kind k_error then Some (mkFeat false false [errtext] false false false false)
+  else if streqb kind k_eof || streqb kind k_werr then Some (mkFeat false false [] true false false false)
+  else if streqb kind k_erroreof then Some (mkFeat false false [errtext] true false false false)
+  else if streqb kind k_bad then Some (mkFeat false false [] false true false false)
+  else if streqb kind k_qwf then
+    (* the sending direction breaks, then Quit(): only the QUIT can fail to be written, unless
+       other output is still on its way (during registration / with output queued) *)
+    Some (mkFeat true false [] false false false (streqb place p_reg || streqb place p_txq))
+  else if streqb kind k_wfault then
+    (* the sending direction breaks, then the application sends a line *)
+    Some (mkFeat false false [] false false false true)
   else None.
 
 Definition show_err (e : err) : str :=
@@ -139,7 +152,7 @@ Definition show_err (e : err) : str :=
 
 Definition show_spec (spec : str) : str :=
   let f := split_byte 47%N spec in      (* '/' *)
-  match kind_features (nth 0 f []) (nth 5 f []) (streqb (nth 6 f []) k_resp) with
+  match kind_features (nth 0 f []) (nth 1 f []) (nth 5 f []) (streqb (nth 6 f []) k_resp) with
   | Some ft => join comma (map show_err (allowed ft))
   | None => bs "?kind"
   end.
@@ -147,5 +160,6 @@ Definition show_spec (spec : str) : str :=
 Definition run_C07 (suite : str) (args : list str) : option str :=
   if streqb suite (bs "lifecycle.accepts") then Some (run_accepts args)
   else if streqb suite (bs "lifecycle.sizes") then Some (run_sizes args)
-  else if streqb suite (bs "lifecycle.sessions") then Some (join bar (map show_spec args))
+  else if streqb suite (bs "lifecycle.sessions") || streqb suite (bs "lifecycle.tcp")
+  then Some (join bar (map show_spec args))
   else None.
